@@ -17,7 +17,10 @@ def bound(df):
 
 def req_of(spec):
     kind, n, k, samples, seed, hint, gen = spec
-    return "stat kind=%s n=%d k=%d samples=%d seed=%d" % (kind, n, k, samples, seed) + (" hint=%s" % hint if hint else "") + (" gen=%s" % gen if gen else "")
+    # a ChaCha generator is misaligned first in three runs out of four (1 or 3 bytes, or a word, taken from its buffer): the draws of the samplers
+    # then straddle the word and block boundaries of the buffer
+    pre = ["", "fill:1", "fill:3", "u32"][seed % 4] if gen == "chacha8" else ""
+    return "stat kind=%s n=%d k=%d samples=%d seed=%d" % (kind, n, k, samples, seed) + (" hint=%s" % hint if hint else "") + (" gen=%s" % gen if gen else "") + (" pre=%s" % pre if pre else "")
 
 
 def judge(kind, n, k, out):
@@ -124,7 +127,8 @@ def statd_request(dist, w, a, b, samples, seed, gen):
         # f32 samples are binned after exact widening; edges that are not f32 values are fine (the law is continuous)
         pass
     e = sorted(set(e))
-    return "statd dist=%s w=%d a=%d b=%d samples=%d seed=%d gen=%s edges=%s" % (dist, w, f2b(a), f2b(b), samples, seed, gen, ",".join(str(f2b(x)) for x in e))
+    pre = ["", "fill:1", "fill:3", "u32"][seed % 4] if gen == "chacha8" else ""
+    return "statd dist=%s w=%d a=%d b=%d samples=%d seed=%d gen=%s%s edges=%s" % (dist, w, f2b(a), f2b(b), samples, seed, gen, " pre=%s" % pre if pre else "", ",".join(str(f2b(x)) for x in e))
 
 
 def judge_d(req, out):
